@@ -35,7 +35,7 @@ PROP = "C08"
 
 def dump_ctx(ctx, tag):
     path = vlib.workfile("c08-%s-%s.json" % (ctx, tag))
-    vlib.run_tool([vlib.rv("rv-load"), "dump", ctx, path], timeout=300)
+    vlib.run_tool([lk.rv_load(), "dump", ctx, path], timeout=300)
     return path
 
 
@@ -227,8 +227,8 @@ def reevaluable(dump):
 def run(tier, seed):
     run = vlib.Run(PROP, tier, seed, "model_checking")
     thorough = tier == "thorough"
-    run.cov["rule"] = ("every unit of the bundled database and of the currency overlay that has a stored definition (quick: 1000 sampled by the "
-                       "seed + every definition of the overlay; thorough: all) is re-evaluated by the specification's evaluator in the "
+    run.cov["rule"] = ("every unit of the bundled database and of the currency overlay that has a stored definition (all of them in both tiers; "
+                       "quick would sample 2500 by the seed if there were more) is re-evaluated by the specification's evaluator in the "
                        "finished database; all structural clauses on the whole dump. non-trivial = distinct definition that is not a bare "
                        "constant and whose value the specification determines exactly.")
     run.assumptions += [
@@ -246,7 +246,7 @@ def run(tier, seed):
     run.add_tlc(r, "MC_Loader_q (FixedPointScoped, TopoOrder, TemporariesEmpty, <>Done)")
 
     # ---- L: loads with no errors or warnings
-    p = vlib.run_tool([vlib.rv("rv-load"), "loadcheck"], timeout=300)
+    p = vlib.run_tool([lk.rv_load(), "loadcheck"], timeout=300)
     lc = json.loads(p.stdout.strip().splitlines()[-1])
     for ctx in ("bundled", "currency"):
         run.count()
@@ -279,8 +279,10 @@ def run(tier, seed):
             # the overlay's own definitions (the bundled part is judged in its own right)
             bundled_names = {u["s"] for u in dumps["bundled"]["units"]}
             recs = [r for r in recs if r["s"] not in bundled_names]
-        elif not thorough and len(recs) > 1000:
-            recs = rng.sample(recs, 1000)
+        elif not thorough and len(recs) > 2500:
+            # (the judge takes seconds: the quick tier judges every definition of the shipped database as well;
+            # sampling only starts should the database grow beyond 2500 re-evaluable definitions)
+            recs = rng.sample(recs, 2500)
         per = 150 if thorough else 125
         rejects, silents, structs, done = judge_dump(run, ctx, dump, recs, per, workers=12 if thorough else 8)
         run.traces(len(recs) + 1)
@@ -330,7 +332,7 @@ def replay(path, seed):
     vlib.build_harness()
     run = vlib.Run(PROP, "quick", seed, "model_checking")
     if case.get("engine") == "loadcheck":
-        p = vlib.run_tool([vlib.rv("rv-load"), "loadcheck"], timeout=300)
+        p = vlib.run_tool([lk.rv_load(), "loadcheck"], timeout=300)
         lc = json.loads(p.stdout.strip().splitlines()[-1])
         log(json.dumps(lc[case["ctx"]])[:1500])
         return 0 if lc[case["ctx"]]["load"]["ok"] else 1
